@@ -29,24 +29,45 @@ from engines.refmodels import packfile as refpack
 
 
 class Wire:
-    """Taps of all handler instances created while it was installed."""
+    """Taps of all handler instances created while it was installed.
+
+    Each connection record also says whether the server-side handler is currently *blocked
+    waiting for client input* (``waiting``) or has returned (``done``): at those moments every
+    byte the server is going to send without further input has been written, which lets a
+    client-side readiness poll be answered deterministically (see props/C05 ``_net_model``)."""
 
     def __init__(self):
-        self.conns = []  # dicts: service, rx (bytearray), tx (bytearray)
-        self.lock = threading.Lock()
+        self.conns = []  # dicts: service, rx (bytearray), tx (bytearray), waiting, done
+        self.cv = threading.Condition()
 
     def open(self, service):
-        c = {"service": service, "rx": bytearray(), "tx": bytearray()}
-        with self.lock:
+        c = {"service": service, "rx": bytearray(), "tx": bytearray(), "waiting": False, "done": False}
+        with self.cv:
             self.conns.append(c)
+            self.cv.notify_all()
         return c
 
     def reset(self):
-        with self.lock:
+        with self.cv:
             self.conns = []
 
+    def quiescent(self, client_sent, index=-1, timeout=30.0):
+        """Block until connection ``index`` exists and its handler has consumed all
+        ``client_sent`` bytes the client wrote after the request line and is blocked waiting for
+        more (or has returned); -> number of bytes the server has written on it so far."""
+        def ready():
+            if not self.conns:
+                return False
+            c = self.conns[index]
+            return c["done"] or (c["waiting"] and len(c["rx"]) >= client_sent)
 
-def _tap_proto(proto, conn):
+        with self.cv:
+            if not self.cv.wait_for(ready, timeout):
+                raise HarnessError("server handler neither waiting nor done after %ss" % timeout)
+            return len(self.conns[index]["tx"])
+
+
+def _tap_proto(proto, conn, wire):
     """Record every byte the handler reads from / writes to the peer through ``proto``."""
     w = proto.write
 
@@ -55,24 +76,28 @@ def _tap_proto(proto, conn):
         return w(data)
 
     proto.write = write
-    if hasattr(proto, "_recv"):
-        r = proto._recv
 
-        def recv(n):
-            data = r(n)
-            conn["rx"] += bytes(data)
-            return data
-
-        proto._recv = recv
-    else:  # plain Protocol: read callable
-        rd = proto.read
-
+    def wrap(r):
         def read(n):
-            data = rd(n)
-            conn["rx"] += bytes(data)
+            with wire.cv:
+                conn["waiting"] = True
+                wire.cv.notify_all()
+            data = b""
+            try:
+                data = r(n)
+            finally:
+                with wire.cv:
+                    conn["waiting"] = False
+                    conn["rx"] += bytes(data)
+                    wire.cv.notify_all()
             return data
 
-        proto.read = read
+        return read
+
+    if hasattr(proto, "_recv"):
+        proto._recv = wrap(proto._recv)
+    else:  # plain Protocol: read callable
+        proto.read = wrap(proto.read)
 
 
 def tap_handlers(wire, drop_upload=(), drop_receive=()):
@@ -82,21 +107,40 @@ def tap_handlers(wire, drop_upload=(), drop_receive=()):
     drop_upload = frozenset(drop_upload)
     drop_receive = frozenset(drop_receive)
 
+    def finish(conn):
+        with wire.cv:
+            conn["done"] = True
+            wire.cv.notify_all()
+
     class TapUpload(UploadPackHandler):
         def __init__(self, backend, args, proto, **kw):
-            _tap_proto(proto, wire.open("upload-pack"))
+            self._conn = wire.open("upload-pack")
+            _tap_proto(proto, self._conn, wire)
             super().__init__(backend, args, proto, **kw)
 
         def capabilities(self):
             return [c for c in super().capabilities() if c not in drop_upload]
 
+        def handle(self):
+            try:
+                return super().handle()
+            finally:
+                finish(self._conn)
+
     class TapReceive(ReceivePackHandler):
         def __init__(self, backend, args, proto, **kw):
-            _tap_proto(proto, wire.open("receive-pack"))
+            self._conn = wire.open("receive-pack")
+            _tap_proto(proto, self._conn, wire)
             super().__init__(backend, args, proto, **kw)
 
         def capabilities(self):
             return [c for c in super().capabilities() if c not in drop_receive]
+
+        def handle(self):
+            try:
+                return super().handle()
+            finally:
+                finish(self._conn)
 
     return {b"git-upload-pack": TapUpload, b"git-receive-pack": TapReceive}
 
